@@ -121,6 +121,37 @@ def _native_(i):
             dst = glob.glob(os.path.join(b, "0-src-*"))[0]
             res["meta_ok"], res["meta_n"], md = _meta_ok(dst)
             res["compressor_ok"] = i["compressor"] is None or md["compressor"] == i["compressor"]
+        elif op == "copy2":
+            c2 = tempfile.mkdtemp(dir=_TMP_ROOT)
+            try:
+                st2 = _ctx([a, b, c2])
+                st2.copy_to_frontend("0", "src", target_frontend_id=None, rechunk=i["rechunk"], rechunk_to_mb=i["target_mb"])
+                res["loaded"] = _rows(_ctx([b]).get_array("0", "src", progress_bar=False))
+                res["loaded_second"] = _rows(_ctx([c2]).get_array("0", "src", progress_bar=False))
+                res["meta_ok"], res["meta_n"], _ = _meta_ok(glob.glob(os.path.join(c2, "0-src-*"))[0])
+                res["compressor_ok"] = True
+            finally:
+                shutil.rmtree(c2, ignore_errors=True)
+        elif op == "dry_load":
+            md = json.load(open(glob.glob(os.path.join(src_dir, "*metadata.json"))[0]))
+            per_chunk = [[r for r in original if 1000 * ci <= r[0] < 1000 * (ci + 1)] for ci in range(len(i["chunks"]))]
+            sel = i["select"]
+            got = strax.dry_load_files(src_dir, sel, disable=True)
+            idx = list(range(len(i["chunks"]))) if sel is None else (list(sel) if isinstance(sel, (list, tuple)) else [sel])
+            res["loaded"] = _rows(got)
+            res["original"] = [r for ci in idx for r in per_chunk[ci]]
+            res["meta_ok"], res["meta_n"], res["compressor_ok"] = True, len(res["original"]), True
+        elif op == "per_chunk_partial":
+            direct = _rows(_ctx([b]).get_array("0", "der", progress_bar=False))
+            n_chunks = len(i["chunks"])
+            grp = [[j] for j in range(n_chunks // 2, n_chunks)]          # the later half only, the last chunk included
+            for g in grp:
+                st.make("0", "der", chunk_number={"src": g}, progress_bar=False)
+            st.merge_per_chunk_storage("0", "der", "src", chunk_number_group=grp, rechunk=i["rechunk"])
+            res["stored_before_merge"] = bool(_ctx([a]).is_stored("0", "der"))      # a partial merge must not count as the complete data
+            res["loaded"] = _rows(_ctx([a]).get_array("0", "der", progress_bar=False))
+            res["original"] = direct
+            res["meta_ok"], res["meta_n"], res["compressor_ok"] = True, len(direct), True
         elif op == "rechunker":
             out = strax.rechunker(source_directory=src_dir, dest_directory=None if i["replace"] else b, replace=i["replace"],
                                   compressor=i["compressor"], target_size_mb=i["target_mb"], rechunk=i["rechunk"],
@@ -155,7 +186,7 @@ def _native_(i):
         src_files_after = sorted((os.path.basename(f), os.path.getsize(f)) for f in glob.glob(os.path.join(src_dir, "*"))) \
             if os.path.isdir(src_dir) else None
         res["source_intact"] = src_files_after == src_files_before
-        res["source_rows_after"] = _rows(_ctx([a]).get_array("0", "src", progress_bar=False)) if op != "per_chunk" else original
+        res["source_rows_after"] = _rows(_ctx([a]).get_array("0", "src", progress_bar=False)) if not op.startswith("per_chunk") else original
         return res
     finally:
         shutil.rmtree(a, ignore_errors=True)
@@ -168,7 +199,11 @@ def _ens(S, a, r):
     out = [("the result loads to exactly the rows of the original / directly made data", r["loaded"] == r["original"]),
            ("metadata is consistent with the new files (listed files exist, row counts add up)", r["meta_ok"] and r["meta_n"] == len(r["original"])),
            ("the requested compressor is recorded", r["compressor_ok"])]
-    if a.op in ("copy", "rechunk_on_load") or (a.op == "rechunker" and not a.replace):
+    if a.op == "copy2":
+        out.append(("EVERY target frontend receives the complete data", r["loaded_second"] == r["original"]))
+    if a.op == "dry_load":
+        return out[:1]
+    if a.op in ("copy", "copy2", "rechunk_on_load") or (a.op == "rechunker" and not a.replace):
         out.append(("the source data is left intact", r["source_intact"] and r["source_rows_after"] == r["original"]))
     if a.op == "rechunker" and a.replace:
         out.append(("with replace the source location holds the rewritten data", r["source_rows_after"] == r["original"]))
@@ -177,6 +212,8 @@ def _ens(S, a, r):
                 ("a dependent plugin computes the same from rechunked input", r["der_ok"])]
     if a.op == "per_chunk":
         out.append(("nothing counts as stored before the merge", r["stored_before_merge"] is False))
+    if a.op == "per_chunk_partial":
+        out.append(("a merge of only some chunks does not count as the complete data type", r["stored_before_merge"] is False))
     return out
 
 
@@ -196,6 +233,11 @@ def _gen(rng, tier):
                                            replace=replace, progress_bar=bar)
         for workers in (1, 2):
             yield dict(op="rechunk_on_load", chunks=chunks, workers=workers)
+        yield dict(op="copy2", chunks=chunks, rechunk=False, target_mb=200)
+        for sel in (None, 0, [0], [0, len(chunks) - 1], (1,)):
+            yield dict(op="dry_load", chunks=chunks, select=sel)
+        if len(chunks) > 2:
+            yield dict(op="per_chunk_partial", chunks=chunks, rechunk=True)
         n = len(chunks)
         groupings = [[[j] for j in range(n)], [list(range(n))]] + ([[list(range(0, n // 2)), list(range(n // 2, n))]] if n > 2 else [])
         if thorough:
@@ -213,6 +255,7 @@ copy_preserves = Contract(
                     scope="stored layouts {[3,0,2],[40,5]} (thorough: also [1,1,1,1],[0,4]) rows per chunk with a 40-float field; "
                           "copy_to_frontend x compressors {zstd,bz2,keep} (thorough: +blosc,lz4) x rechunk on/off x target size; stand-alone "
                           "rechunker x the same x serial / thread (thorough: process) x replace on/off x progress bar on/off; rechunk on load "
-                          "with 1 and 2 workers; per-chunk make over groupings {singletons, all, halves} + merge_per_chunk_storage; every "
+                          "with 1 and 2 workers; per-chunk make over groupings {singletons, all, halves} + merge_per_chunk_storage, a partial merge of the later half, copy to two "
+                          "targets at once, dry_load_files with None / a number / lists; every "
                           "result loaded through a fresh Context and compared row by row",
                     nontrivial=lambda i: True))
